@@ -258,8 +258,18 @@ func flatten(toks []psref.Tok, out *[]string) {
 func stateAfter(pieces []string) (string, error) {
 	intp := postscript.NewInterpreter()
 	intp.MaxOps = targets.InterpMaxOps
-	for _, p := range pieces {
-		if err := intp.ExecuteString(p); err != nil {
+	for i, p := range pieces {
+		var err error
+		if len(pieces) == 1 {
+			err = intp.ExecuteString(p)
+		} else {
+			// the calls of a history get their text from readers of every
+			// kind (a function of the case): all at once, byte by byte, the
+			// last data together with io.EOF, with or without Seek ...
+			kind := iofault.ReaderKinds[(len(p)+i)%len(iofault.ReaderKinds)]
+			err = intp.Execute(iofault.NewReader(kind, []byte(p)))
+		}
+		if err != nil {
 			return pscanon.State(intp), err
 		}
 	}
@@ -349,7 +359,7 @@ func TestP4Leftover(t *testing.T) {
 func TestP3MultiCall(t *testing.T) {
 	rec := ev.New("C12", "multicall")
 	defer rec.Finish(t)
-	rec.Rule("a program (C03 / C02 generators, without stop, without currentfile reads and DSC lines) is flattened into tokens, cut at 1-6 drawn token boundaries - also inside an unfinished procedure body - and fed to one interpreter in consecutive Execute calls (feeding stops at the first error); the canonical state and the error name must equal those of a single call with the concatenation. Non-trivial: >= 2 pieces and at least one cut inside an open '{'; distinct by pieces.")
+	rec.Rule("a program (C03 / C02 generators, without stop, without currentfile reads and DSC lines) is flattened into tokens, cut at 1-6 drawn token boundaries - also inside an unfinished procedure body - and fed to one interpreter in consecutive Execute calls, each through a reader of another kind - bytes.Reader, strings.Reader, bufio, bare, one byte at a time, last data together with io.EOF ... - (feeding stops at the first error); the canonical state and the error name must equal those of a single call with the concatenation. Non-trivial: >= 2 pieces and at least one cut inside an open '{'; distinct by pieces.")
 	cfg := psgen.Config{TypeLiteral: true}
 	ev.SetupRapid(20000, 640000)
 	rapid.Check(t, func(t *rapid.T) {
